@@ -153,7 +153,7 @@ def run(tier):
     rels = corpus.generate(rep, specs, mode="equiv", timeout=1500 if tier == "quick" else 3000)
     rep.exhaustive = True
     if tier == "quick":
-        keep = {"elementwise": 12, "get_at": 8, "id": 4, "update_at": 3, "preserve": 2, "argfind": 2}
+        keep = {"elementwise": 12, "get_at": 8, "id": 4, "update_at": 6, "preserve": 2, "argfind": 2}
         rels = [r for i, r in enumerate(rels) if i % keep.get(r["base"]["fam"], 1) == 0]
     items = [{"base": r["base"], "rel": r["rel"], "ops": OPS[r["base"]["fam"]] if tier == "thorough" else OPS[r["base"]["fam"]][: 1 + (i % 2)],
               "seed": common.seed() * 104729 + i} for i, r in enumerate(rels)]
